@@ -248,7 +248,8 @@ theorem filterMap_cancel_nodup (i : Nat) (t : List (Nat × Order)) (h : (t.map (
   induction t with
   | nil => simp
   | cons a t ih =>
-    have h' := List.nodup_cons.mp (by simpa using h)
+    rw [List.map_cons] at h
+    have h' : a.1 ∉ t.map (·.1) ∧ (t.map (·.1)).Nodup := List.nodup_cons.mp h
     rw [List.filterMap_cons]
     split
     · exact ih h'.2
@@ -278,17 +279,19 @@ theorem cancel_flatMap_nodup (l : List (Instr × Nat)) (hp : l.Pairwise (fun a b
     refine ⟨?_, ih hp'.2 (fun si hsi => hu si (List.mem_cons_of_mem _ hsi)), ?_⟩
     · apply filterMap_cancel_nodup
       have := hu a (by simp)
-      exact ((sortByCid_perm a.1.orders).map (·.1)).nodup_iff.mpr this
+      unfold KeysUnique keys at this
+      exact ((sortByCid_perm a.1.orders).map _).nodup_iff.mpr this
     · intro x hx y hy hxy
       obtain ⟨r, hr, rfl⟩ := List.mem_map.mp hx
       obtain ⟨r', hr', hk⟩ := List.mem_map.mp hy
+      subst hk
       obtain ⟨co, _, h1⟩ := List.mem_filterMap.mp hr
       obtain ⟨si, hsi, h2⟩ := List.mem_flatMap.mp hr'
       obtain ⟨co', _, h2⟩ := List.mem_filterMap.mp h2
       have k1 := toRequestCancel_key _ _ _ h1
       have k2 := toRequestCancel_key _ _ _ h2
       have := hp'.1 si hsi
-      simp only [CancelReq.orderKey, Prod.mk.injEq] at hk
+      simp only [CancelReq.orderKey, Prod.mk.injEq] at hxy
       omega
 
 theorem mem_closeRequests (e : Eng) (f : Filter) (r : OpenReq) :
@@ -470,11 +473,159 @@ theorem orderOf_recordCancels (e : Eng) (rs : List CancelReq) (i c : Nat) :
     rw [ih, orderOf_recordCancel]
     by_cases hr : r.key.instrument = i ∧ r.key.cid = c
     · have hr' : i = r.key.instrument ∧ c = r.key.cid := ⟨hr.1.symm, hr.2.symm⟩
-      simp only [List.any_cons, hr, and_self, decide_true, Bool.true_or, ↓reduceIte, hr']
+      have hd : decide (r.key.instrument = i ∧ r.key.cid = c) = true := decide_eq_true hr
+      rw [if_pos hr', List.any_cons, hd, Bool.true_or, if_pos rfl]
       split
       · cases orderOf e i c <;> simp [markCancel_idem]
       · rfl
     · have hr' : ¬ (i = r.key.instrument ∧ c = r.key.cid) := fun h => hr ⟨h.1.symm, h.2.symm⟩
-      simp [List.any_cons, hr, hr']
+      have hd : decide (r.key.instrument = i ∧ r.key.cid = c) = false := decide_eq_false hr
+      rw [if_neg hr', List.any_cons, hd, Bool.false_or]
+
+
+/-! ### the commands, unfolded -/
+
+/-- the cancels a `CancelOrders(f)` command delivers: the generated ones whose link is healthy -/
+def cancelSent (e : Eng) (f : Filter) : List CancelReq :=
+  (cancelRequests e f).filter fun r => (linkResult e.links r.key.exchange).isNone
+
+/-- the opens a `ClosePositions(f)` command delivers -/
+def closeSent (e : Eng) (f : Filter) : List OpenReq :=
+  (closeRequests e f).filter fun r => (linkResult e.links r.key.exchange).isNone
+
+theorem action_cancelOrders_instruments (e : Eng) (f : Filter) :
+    (action e (.cancelOrders f)).1.instruments =
+      (recordCancels e (cancelSent e f)).instruments := by
+  have h : ∀ (a b : Eng) (rs : List CancelReq), a.instruments = b.instruments →
+      (recordCancels a rs).instruments = (recordCancels b rs).instruments := by
+    intro a b rs
+    induction rs generalizing a b with
+    | nil => exact id
+    | cons r rs ih =>
+      intro hab
+      simp only [recordCancels, List.foldl_cons] at *
+      apply ih
+      simp [recordCancel, hab]
+  exact h _ _ _ rfl
+
+theorem action_closePositions_instruments (e : Eng) (f : Filter) :
+    (action e (.closePositions f)).1.instruments =
+      (recordOpens e (closeSent e f)).instruments := by
+  have h : ∀ (a b : Eng) (rs : List OpenReq), a.instruments = b.instruments →
+      (recordOpens a rs).instruments = (recordOpens b rs).instruments := by
+    intro a b rs
+    induction rs generalizing a b with
+    | nil => exact id
+    | cons r rs ih =>
+      intro hab
+      simp only [recordOpens, List.foldl_cons] at *
+      apply ih
+      simp [recordOpen, hab]
+  exact h _ _ _ rfl
+
+theorem tablesUnique_congr (a b : Eng) (h : a.instruments = b.instruments) (hb : TablesUnique b) :
+    TablesUnique a := by
+  intro i s hs; rw [h] at hs; exact hb i s hs
+
+theorem orderOf_congr (a b : Eng) (h : a.instruments = b.instruments) (i c : Nat) :
+    orderOf a i c = orderOf b i c := by
+  unfold orderOf; rw [h]
+
+theorem tablesUnique_applyUpdate (e : Eng) (u : Update) (h : TablesUnique e) :
+    TablesUnique (applyUpdate e u) := by
+  intro j s hs
+  cases u with
+  | order i op =>
+    simp only [applyUpdate, modifyInstr_getElem?] at hs
+    split at hs
+    · rename_i hj; subst hj
+      cases hj : e.instruments[j]? with
+      | none => simp [hj] at hs
+      | some s0 =>
+        simp only [hj, Option.map_some, Option.some.injEq] at hs
+        subst hs
+        exact keysUnique_step s0.orders op (h j s0 hj)
+    · exact h j s hs
+  | position i side q =>
+    simp only [applyUpdate, modifyInstr_getElem?] at hs
+    split at hs
+    · rename_i hj; subst hj
+      cases hj : e.instruments[j]? with
+      | none => simp [hj] at hs
+      | some s0 =>
+        simp only [hj, Option.map_some, Option.some.injEq] at hs
+        subst hs
+        exact h j s0 hj
+    · exact h j s hs
+  | flat i =>
+    simp only [applyUpdate, modifyInstr_getElem?] at hs
+    split at hs
+    · rename_i hj; subst hj
+      cases hj : e.instruments[j]? with
+      | none => simp [hj] at hs
+      | some s0 =>
+        simp only [hj, Option.map_some, Option.some.injEq] at hs
+        subst hs
+        exact h j s0 hj
+    · exact h j s hs
+  | price i p =>
+    simp only [applyUpdate, modifyInstr_getElem?] at hs
+    split at hs
+    · rename_i hj; subst hj
+      cases hj : e.instruments[j]? with
+      | none => simp [hj] at hs
+      | some s0 =>
+        simp only [hj, Option.map_some, Option.some.injEq] at hs
+        subst hs
+        exact h j s0 hj
+    · exact h j s hs
+
+theorem tablesUnique_action (e : Eng) (c : Command) (h : TablesUnique e) :
+    TablesUnique (action e c).1 := by
+  cases c with
+  | sendCancelRequests rs =>
+    exact tablesUnique_recordCancels _ _ (tablesUnique_congr _ e rfl h)
+  | sendOpenRequests rs =>
+    exact tablesUnique_recordOpens _ _ (tablesUnique_congr _ e rfl h)
+  | closePositions f =>
+    exact tablesUnique_congr _ _ (action_closePositions_instruments e f)
+      (tablesUnique_recordOpens _ _ h)
+  | cancelOrders f =>
+    exact tablesUnique_congr _ _ (action_cancelOrders_instruments e f)
+      (tablesUnique_recordCancels _ _ h)
+
+theorem tablesUnique_generateAlgoOrders (e : Eng) (cs : List CancelReq) (os : List OpenReq)
+    (refuse : Key → Bool) (h : TablesUnique e) :
+    TablesUnique (generateAlgoOrders e cs os refuse).1 := by
+  simp only [generateAlgoOrders]
+  apply tablesUnique_recordOpens
+  apply tablesUnique_recordCancels
+  exact tablesUnique_congr _ e rfl h
+
+theorem tablesUnique_generateStage (e : Eng) (cmd : Option ActionOut) (cs : List CancelReq)
+    (os : List OpenReq) (refuse : Key → Bool) (h : TablesUnique e) :
+    TablesUnique (generateStage e cmd cs os refuse).1 := by
+  unfold generateStage
+  split
+  · exact tablesUnique_generateAlgoOrders e cs os refuse h
+  · exact h
+
+theorem tablesUnique_process (e : Eng) (ev : Event) (cs : List CancelReq) (os : List OpenReq)
+    (refuse : Key → Bool) (h : TablesUnique e) : TablesUnique (process e ev cs os refuse).1 := by
+  cases ev with
+  | shutdown => exact h
+  | command c =>
+    simp only [process]
+    split
+    · exact tablesUnique_action e c h
+    · exact tablesUnique_generateStage _ _ _ _ _ (tablesUnique_action e c h)
+  | tradingState on =>
+    simp only [process]
+    apply tablesUnique_generateStage
+    apply tablesUnique_congr _ e _ h
+    unfold updateTradingState; split <;> rfl
+  | update u =>
+    simp only [process]
+    exact tablesUnique_generateStage _ _ _ _ _ (tablesUnique_applyUpdate e u h)
 
 end BarterModel.Engine
